@@ -240,7 +240,8 @@ def gen_cases(rng, tier):
         for k in (m * m, m * (m + 1), m * (m - 1)):    # all have a divisor close to sqrt(k): short loops
             ns.append(3 * k)
     for n in ns:
-        cases.append(dict(k="dims", n=n, cls="dims"))
+        # the model's loop counter is a unary number: beyond k = 10^9 only the oracle judges the code
+        cases.append(dict(k="dims", n=n, cls="dims" if n <= 3 * 10 ** 9 else "dims-large"))
     return cases
 
 
@@ -351,14 +352,17 @@ def run(chk, args):
     # model
     if chk.model_ok:
         try:
-            order = sorted(range(len(cases)), key=lambda i: -cost(cases[i]))    # balance the shards
-            shards = max(12, (len(cases) + 399) // 400)
+            order = sorted((i for i in range(len(cases)) if cases[i].get("cls") != "dims-large"),
+                           key=lambda i: -cost(cases[i]))                       # balance the shards
+            shards = max(12, (len(order) + 399) // 400)
             perm = [i for s in range(shards) for i in order[s::shards]]
             per = (len(perm) + shards - 1) // shards
             vals_p = chk.coq_eval(HEADER, [coq_expr(cases[i], outs[i]) for i in perm], shard=per)
             vals = dict(zip(perm, vals_p))
             n_bad = 0
             for i, (c, o) in enumerate(zip(cases, outs)):
+                if i not in vals:
+                    continue
                 chk.traces_validated += 1
                 m, p = canon_model(c, vals[i]), canon_impl(c, o)
                 if m != p:
@@ -369,7 +373,7 @@ def run(chk, args):
                             dict(case=c, observed=o if c["k"] != "machine" else [o[0]]))
             if not n_bad:
                 chk.oblige("correspondence:board-geometry (%d cases: whole machines compared chip by chip, single "
-                           "calls, board counts; exact equality of every value / error class)" % len(cases), True)
+                           "calls, board counts; exact equality of every value / error class)" % len(vals), True)
         except RuntimeError as e:
             chk.oblige("correspondence:model-evaluates", False, str(e))
     chk.coverage["rule"] = (
